@@ -124,6 +124,19 @@ def range_rule(prog: Program, rep, RID: str, cname: str, mname: str):
     need = Poly.atom(canonical) + Poly.const(extra + 1)          # exclusive bound must be >= K + 1
     # a required summand given as a pattern stands for whatever atom of the bound matches it (a fresh atom if none does)
     plus_ = []
+    # a required *sum* over a collection replaced by the *max* over the same collection: max(f(c) for c in X) <= sum(f(c) for c in X), and the
+    # difference is unbounded in the number of elements of X (independently of the size atom), so the bound is below K+1 on some input
+    for a in plus:
+        if a.startswith("re:") and not any(re.match(a[3:], x) for x in to_poly(hi).atoms()):
+            for n_ in ast.walk(hi):
+                if isinstance(n_, ast.Call) and dotted(n_.func) in ("max", "min") and len(n_.args) == 1 and isinstance(n_.args[0], (ast.GeneratorExp, ast.ListComp)) \
+                        and all(kw.arg == "default" for kw in n_.keywords):
+                    as_sum = norm(ast.Call(func=ast.Name(id="sum", ctx=ast.Load()), args=[n_.args[0]], keywords=[]))
+                    if re.match(a[3:], as_sum):
+                        rep.violation(RID, f"{key}:upper-bound", f"the k-loop's exclusive upper bound `{norm(hi)}` takes `{norm(n_)}` where K needs the sum `{as_sum}`: "
+                                      f"the {dotted(n_.func)} over the collection is below the sum by an amount that grows with the number of its elements, "
+                                      f"so an instance whose optimum is K is reported unsolved ({why})", f.loc(loop))
+                        return
     for a in plus:
         if a.startswith("re:"):
             found = [x for x in to_poly(hi).atoms() | {y for n_ in ast.walk(hi) if isinstance(n_, ast.Call) and dotted(n_.func) in ("max", "min")
